@@ -51,6 +51,12 @@ def pure_unit(prop, fn, contract, doms, case='', contracts=None, extra_inline=()
         eng.assume(sym.lnot(exc_cond))
         exp = the_spec(eng, *args)
         dc = dontcare(*args) if dontcare else False
+        if dontcare and (sym.is_intlike(exp) != sym.is_intlike(r) or (exp is None) != (r is None) or
+                         (isinstance(exp, (tuple, list)) and (not isinstance(r, (tuple, list)) or len(r) != len(exp)))):
+            # also for don't-care (UNPREDICTABLE) inputs the body hands back the kind of value callers are verified against
+            eng.oblige('safe.host', 'returns the kind of value its contract promises (also for UNPREDICTABLE inputs)', False,
+                       detail='real %s, contract %s' % (type(r).__name__, type(exp).__name__))
+            return r
         eng.oblige('post', 'result == spec', sym.lor(dc, values_eq(r, exp)))
         return r
 
@@ -155,7 +161,19 @@ def method_unit(prop, fn, doms, on='regs', spec=None, contract=None, contracts=N
                 return
         dc = u2 if compare_unpred else sym.lor(u1, u2)
         if raised is None:
+            # the kind of value the contract hands to callers holds on every path, UNPREDICTABLE ones included: callers are
+            # verified against the contract and would otherwise meet a host-level error the contract hides
+            if sym.is_intlike(exp_r) != sym.is_intlike(r1) or (exp_r is None) != (r1 is None):
+                eng.oblige('safe.host', '%s: returns the kind of value its contract promises (also where UNPREDICTABLE)' % lab, False,
+                           detail='real %s, contract %s' % (type(r1).__name__, type(exp_r).__name__))
+                return
             eng.oblige('post', '%s: result == spec' % lab, sym.lor(dc, values_eq(r1, exp_r)))
+        odd = [k for k, v in fin.items() if k != 'mem' and init.get(k) is not None and
+               (sym.is_intlike(init[k]) or isinstance(init[k], (bool, sym.SymBool))) and not (sym.is_intlike(v) or isinstance(v, (bool, sym.SymBool)))]
+        if odd:
+            eng.oblige('safe.host', '%s: every state leaf keeps its kind (integer / truth value), also where UNPREDICTABLE' % lab, False,
+                       detail='leaves holding another kind of value: %s' % odd[:6])
+            return
         named = []
         for k, v in fin.items():
             if k in ignore:
@@ -239,6 +257,10 @@ def method_unit(prop, fn, doms, on='regs', spec=None, contract=None, contracts=N
         lines.append('real: result %s%s unpredictable=%s' % (fmt(r1), ' raised %r' % raised if raised else '', u1))
         lines.append('spec: result %s%s unpredictable=%s' % (fmt(exp_r), ' raises %s' % exp_raise.__name__ if exp_raise else '', bool(u2)))
         bad = False
+        if ob.get('kind') == 'safe.host' and raised is None:
+            bad = isinstance(r1, int) != isinstance(exp_r, int) or (r1 is None) != (exp_r is None)
+            lines.append('result kind: real %s, contract %s' % (type(r1).__name__, type(exp_r).__name__))
+            return bad, '\n'.join(lines)
         if (raised is not None) != (exp_raise is not None):
             bad = True
         elif raised is None and not u2:
